@@ -30,10 +30,23 @@ def mutants():
         out.append("| %s | %s | %s | `%s` | %s |" % (r["mutant"], r["property"], r["verdict"], r["first_signature"].split(":")[0], r["note"].replace("|", "/")))
     return "\n".join(out)
 
+def equivalents():
+    d = os.path.join(ROOT, "equivalent")
+    out = ["### Behaviour-preserving refactorings by sub-agents (kept under `equivalent/`): every listed quick check must stay silent", "",
+           "| id | what it restructures | checks run (all silent unless noted) |", "|---|---|---|"]
+    for name in sorted(os.listdir(d), key=lambda x: (x.split("-")[0], int(x.split("-")[1]))):
+        m = json.load(open(os.path.join(d, name, "meta.json")))
+        readme = open(os.path.join(d, name, "README.md")).read()
+        title = next((l.strip("# ").strip() for l in readme.splitlines() if l.strip()), "")[:170].replace("|", "/")
+        res = ", ".join("%s %s" % (k.split()[1], v["verdict"]) for k, v in m["checks"].items() if isinstance(v, dict)) or "not run"
+        out.append("| %s | %s | %s |" % (name, title, res))
+    return "\n".join(out)
+
+
 def main():
     p = os.path.join(ROOT, "DESIGN.md")
     s = open(p).read()
-    for tag, fn in (("SEEDED", seeded), ("MUTANTS", mutants)):
+    for tag, fn in (("SEEDED", seeded), ("MUTANTS", mutants), ("EQUIV", equivalents)):
         s = re.sub(r"<!-- BEGIN:%s -->.*?<!-- END:%s -->" % (tag, tag), lambda m: "<!-- BEGIN:%s -->\n%s\n<!-- END:%s -->" % (tag, fn(), tag), s, flags=re.S)
     open(p, "w").write(s)
 
